@@ -467,6 +467,19 @@ impl WebSocketConnection {
     /// Start the connection event loop without notifying protocols.
     /// This is used when protocols have already been notified during accept().
     pub(crate) async fn start(mut self) -> crate::Result<()> {
+        let result = self.run_event_loop().await;
+
+        // The connection is gone once this function returns, no matter why the event loop
+        // exited. Report it closed to the protocols and to `TransportManager` exactly once.
+        let reported = self.protocol_set.report_connection_closed(self.peer, self.connection_id).await;
+
+        result.and(reported)
+    }
+
+    /// Run the connection event loop until the connection is closed or an error occurs.
+    ///
+    /// The caller is responsible for reporting the closed connection.
+    async fn run_event_loop(&mut self) -> crate::Result<()> {
         loop {
             tokio::select! {
                 substream = self.connection.next() => match substream {
@@ -503,14 +516,10 @@ impl WebSocketConnection {
                             ?error,
                             "connection closed with error"
                         );
-                        self.protocol_set.report_connection_closed(self.peer, self.connection_id).await?;
-
                         return Ok(())
                     }
                     None => {
                         tracing::debug!(target: LOG_TARGET, peer = ?self.peer, "connection closed");
-                        self.protocol_set.report_connection_closed(self.peer, self.connection_id).await?;
-
                         return Ok(())
                     }
                 },
@@ -620,11 +629,11 @@ impl WebSocketConnection {
                             "force closing connection",
                         );
 
-                        return self.protocol_set.report_connection_closed(self.peer, self.connection_id).await
+                        return Ok(())
                     }
                     None => {
                         tracing::debug!(target: LOG_TARGET, "protocols have exited, shutting down connection");
-                        return self.protocol_set.report_connection_closed(self.peer, self.connection_id).await
+                        return Ok(())
                     }
                 }
             }
